@@ -276,6 +276,11 @@ class Engine:
             try:
                 extra = spec.extra_impl_checks(self, tier, seed)
                 if extra:
+                    evaluations += extra.pop("evaluations", 0)
+                    self._extra_distinct = extra.pop("distinct_nontrivial", 0)
+                    traces_ok += extra.pop("traces_validated_against_impl", 0)
+                    if extra.get("samples") and not cov["samples"]:
+                        cov["samples"] = extra.pop("samples")
                     cov.update(extra)
             except Exception as e:
                 broken.append(f"extra implementation checks failed to run: {e}")
@@ -309,7 +314,7 @@ class Engine:
             self.notes.append("broken obligations (reported together with the concrete violation above): " + "; ".join(broken)[:600])
 
         # 4. evidence
-        cov.update({"evaluations": evaluations, "distinct_nontrivial": len(distinct),
+        cov.update({"evaluations": evaluations, "distinct_nontrivial": len(distinct) + getattr(self, "_extra_distinct", 0),
                     "rule": spec.rule, "traces_validated_against_impl": traces_ok,
                     "input_distribution": dict(sorted(dist.items())),
                     "broken_obligations": broken, "notes": self.notes,
@@ -318,7 +323,7 @@ class Engine:
                        list(spec.assumptions), time.time() - self.t0, len(self.rep.violations))
         status = "OK" if not self.rep.violations else "FAILED"
         print(f"[{spec.pid}] {status}: theorems {cov['discharged']}/{cov['obligations']} discharged, "
-              f"{evaluations} cases ({len(distinct)} distinct non-trivial), {traces_ok} agreed with the implementation, "
+              f"{evaluations} cases ({len(distinct) + getattr(self, '_extra_distinct', 0)} distinct non-trivial), {traces_ok} agreed with the implementation, "
               f"{time.time() - self.t0:.1f}s")
         return self.rep.exit_code()
 
